@@ -13,6 +13,8 @@ CONSTANTS
   FreshModule = TRUE
   Words = {1, 2, 3}
   FullStropKey = FALSE
+  Docs = {0}
+  PureFilters = TRUE
 VIEW View
 INVARIANT EmitBad
 CHECK_DEADLOCK FALSE
